@@ -4,6 +4,7 @@ import hir
 import pathsum
 from pathsum import ERR, NONE, OK, SOME, show_term
 
+RERUN_ON_CONFIGS = ("dfm", "std")
 LEVEL = "proof"
 RULE_TEXT = ("The implementation is matched clause by clause against the abstract bounded FIFO with replace-newest "
              "overflow (obligations over path summaries and callee sets, valid for every history and capacity N): "
